@@ -70,13 +70,8 @@ void SelectLoop::runLoop(Mode mode)
                 bool is_writable = FD_ISSET(fd, &write_set);
                 bool is_except   = FD_ISSET(fd, &except_set);
 
-                if (is_readable || is_writable || is_except) {
-                    //! 前面的回调可能已经删除了该fd上最后一个FdEvent，此时共享数据已不存在
-                    auto iter = fd_data_map_.find(fd);
-                    if (iter == fd_data_map_.end())
-                        continue;
-                    SelectFdEvent::OnEventCallback(is_readable, is_writable, is_except, iter->second);
-                }
+                if (is_readable || is_writable || is_except)
+                    SelectFdEvent::OnEventCallback(is_readable, is_writable, is_except, this, fd);
             }
         } else if (select_ret == -1) {
             if (errno == EBADF) {
@@ -180,6 +175,15 @@ SelectFdSharedData* SelectLoop::refFdSharedData(int fd)
 
     ++fd_shared_data->ref;
     return fd_shared_data;
+}
+
+SelectFdSharedData* SelectLoop::findFdSharedData(int fd) const
+{
+    auto it = fd_data_map_.find(fd);
+    if (it == fd_data_map_.end())
+        return nullptr;
+
+    return it->second;
 }
 
 void SelectLoop::unrefFdSharedData(int fd)
